@@ -20,6 +20,8 @@ pub enum Suffix {
     Zero,
     Ones,
     Seq(u16),
+    /// The key `Rand(s)` gives, with its last `n` (1..=8) bits inverted: a twin sharing 256 - n bits.
+    Twin(u64, u8),
 }
 
 #[derive(Clone, Debug, Serialize, Deserialize, PartialEq, Eq)]
@@ -98,6 +100,12 @@ pub fn make_key(salt: u64, r: &KeyRecipe) -> Key {
         Suffix::Seq(n) => {
             let mut z = [0u8; 32];
             z[30..32].copy_from_slice(&n.to_be_bytes());
+            z
+        }
+        Suffix::Twin(s, n) => {
+            let mut z = SplitMix(*s).key();
+            let n = (*n).clamp(1, 8);
+            z[31] ^= ((1u16 << n) - 1) as u8;
             z
         }
     };
